@@ -60,7 +60,9 @@ impl<'a> Lexer<'a> {
                     None
                 } else {
                     let start = self.original_length - self.input.len();
-                    let end = start + 1;
+                    // the span covers the whole offending character
+                    let end = start
+                        + self.input.chars().next().map_or(1, char::len_utf8);
                     Some((Err(()), start..end))
                 }
             }
